@@ -88,3 +88,39 @@ def shrink(values, test, budget=400):
                             improved = True
                             break
     return best, calls[0]
+
+
+def shrink_streams(values, test, budget=400):
+    """values: {stream: [ints]}; test(values_dict) -> (same_violation, canonical_values_dict)"""
+    best = {k: _trim(v) for k, v in values.items()}
+    used = 0
+    improved = True
+    rounds = 0
+    while improved and used < budget and rounds < 3:
+        improved = False
+        rounds += 1
+        # decisions about scheduling and time first: most of them are usually irrelevant
+        for name in sorted(best, key=lambda k: (k == "main", k)):
+            if used >= budget:
+                break
+
+            def t(vs, name=name):
+                cand = dict(best)
+                cand[name] = vs
+                ok, canon = test(cand)
+                return ok, (canon.get(name, []) if ok else vs)
+            before = list(best[name])
+            new, calls = shrink(best[name], t, max(20, (budget - used) // 2))
+            used += calls
+            if new != before:
+                # re-validate the combination (the canonical form of the other streams may have moved)
+                cand = dict(best)
+                cand[name] = new
+                ok, canon = test(cand)
+                used += 1
+                if ok:
+                    best = {k: _trim(v) for k, v in canon.items()}
+                    for k in cand:
+                        best.setdefault(k, [])
+                    improved = True
+    return best, used
